@@ -11,6 +11,8 @@ import (
 	"bufio"
 	"bytes"
 	"context"
+	"crypto/sha1"
+	"encoding/base64"
 	"fmt"
 	"io"
 	"log"
@@ -848,6 +850,12 @@ func vfQueryEscape(s string) string {
 		}
 	}
 	return b.String()
+}
+
+// vfHtpasswdSHA renders an htpasswd {SHA} entry value for a password.
+func vfHtpasswdSHA(pw string) string {
+	h := sha1.Sum([]byte(pw))
+	return "{SHA}" + base64.StdEncoding.EncodeToString(h[:])
 }
 
 var vfStdIdentity = vfIdentity{Sub: "u-alice", Email: "alice@example.com", Groups: []string{"g1", "g2"}, PreferredUsername: "alice-pu"}
